@@ -19,37 +19,40 @@ from common import req, close, TOL, run_driver
 import scen_bpm
 
 META = {
-    'text': 'Theorems (Lean 4, reals, induction over ANY particle list and number of compounds) about a line-by-line '
-            'model of lmp.derivs: for each compound the mass-slot derivatives of all particles plus the dissolved slot '
-            'equal md/rho_a*ca - sum(k_bio*m*nbe*dtp) - k_bio_e*cpe; element heat slot plus particle heat slots equal '
-            'md*cp*Ta plus the heat of solution; slots 0,1,3,4 are md, md*Sa, md*ua, md*va; a particle with '
-            'integrate=False contributes nc+5 zeros and leaves every other slot unchanged; vector length is '
-            '11+sum(nc_i+5)+nchems+ntracers. The model is tied to the code by executing it at Float on closure values '
-            'read from real LagElement/Particle objects (states along real short simulations and random perturbations, '
-            '0-6 particles, soluble/inert, in/out of plume, background concentrations, currents, biodegradation) and '
-            'comparing all slots with the real lmp.derivs; the budget identities are additionally evaluated on the '
-            'real vector for every state.',
-    'note': 'Trusted: Lean kernel + 3 standard axioms; my transcription of lmp.derivs (validated by the slot-by-slot '
-            'correspondence on every state); real arithmetic as stand-in for IEEE doubles; the closures (entrainment, '
-            'track_particles, LagElement.update, dbm particle properties, ambient profile) are NOT modelled: the '
-            'budgets hold for whatever values they return. The biodegradation sink of the dissolved pool is '
-            'k_bio_e*cpe with k_bio_e the value LagElement.update leaves behind (that of the LAST particle of the '
-            'list, 0 if it is insoluble) — the budget closes with that value; its order dependence is reported in '
-            'evidence.notes, not judged by this property.',
-    'technique': 'Lean 4 proof over a hand model of the assembly + differential execution against the real code on real states',
+    'text': 'PROVED (Lean 4, reals, induction over ANY particle list / number of compounds) about a line-by-line model of '
+            'lmp.derivs: per compound, mass-slot derivatives of all particles + dissolved slot = md/rho_a*ca - sum over '
+            'soluble particles inside the plume of k_bio*m*nbe*dtp - k_bio_e*cpe; element heat slot + particle heat slots = '
+            'md*cp*Ta + heat of solution; a vector with a particle outside the plume is the vector without it with nc+5 '
+            'zeros inserted; length 11+sum(nc_i+5)+nchems+ntracers; tracer slots; and about the transcribed closures: '
+            'entrainment = max(shear, forced), dtp >= 0, p_fac >= 0, zero buoyant force outside the plume. Slots 0,1,3,4 = md, '
+            'md*Sa, md*ua, md*va and the zero block of an outside particle are definitional read-backs of the model. '
+            'SAMPLED on the real code, every state: (a) model == lmp.derivs slot by slot; (b) every budget on the real '
+            'vector, judged against ambient values the HARNESS looks up at the element depth (profile.get_values, '
+            'seawater.density) and element values it derives from the packed state; (c) LagElement.update, Particle.track, '
+            'the buoyant force, lmp.entrainment (with shear_entrainment) and lmp.track_particles against their Lean '
+            'transcriptions evaluated on those oracle inputs; (d) each particle heat slot against its own mass slots; '
+            '(e) real re-evaluations with the particle list reordered / shortened by an outside particle.',
+    'note': 'Trusted: Lean kernel + 3 standard axioms; my transcriptions (validated by (a),(c)); real arithmetic for IEEE doubles. '
+            'Library values taken as given (other properties): profile interpolation (C07), seawater.density/cp (C13), dbm particle '
+            'properties us, rho_p, A, Cs, beta, beta_T, T, k_bio (C09/C17). Precondition of tamoc, not checked: all soluble '
+            'particles of one simulation share one composition list (LagElement/derivs align arrays by position; differing '
+            'lists raise or mis-align in NumPy). Shape hypotheses WfE/WfP of the theorems state exactly that. Known findings on '
+            '/repo: element-kbio-from-last-particle, inert-heat-loss-nchems-broadcast.',
+    'technique': 'Lean 4 proof over hand models of assembly and closures + differential execution against the real code with an independent oracle for the closures',
 }
 GEN = []
 MODULES = ['TamocV.Props.C03', 'TamocV.Model.Lmp']
-RULE = ('states = rows of short real bent_plume_model simulations (random scenario: 100-2500 m, 0-6 particles '
-        'gas/liquid/inert, jet or pure multiphase, any orientation, currents none/uniform/sheared with optional wa, '
-        'background concentrations none/some/all, biodegradation none/random/database, lag time on/off) taken as '
-        '(previous row, current row) pairs, unperturbed and randomly perturbed (element mass/salt/heat, momentum '
-        'magnitude and direction, depth, arc length incl. ds=0, particle masses, heats, positions inside and outside '
-        'the half-width, dissolved pool, tracers), each with random in/out-of-plume flags given both through the '
-        'integrate flag and through NaN-marked positions of a stored simulation; a state is non-trivial when its '
-        '(scenario, row, perturbation, flags) key is new and md != 0')
-LEVEL_NOTE = ('theorems over the reals about my transcription of lmp.derivs (Model/Lmp.lean); the transcription is tied to '
-              '/repo by slot-by-slot comparison on every generated state; closures and floating point are trusted')
+RULE = ('states = (previous row, current row) pairs of real bent_plume_model simulations (random scenario: 100-2500 m, 0-6 '
+        'particles gas/liquid/inert, jet or pure multiphase, any orientation, currents none/uniform/sheared with optional wa, '
+        'background concentrations none/some/all, biodegradation none/random/database, lag time on/off, s/D up to 3-400, '
+        'first and last stored row always included), unperturbed and randomly perturbed (element mass/salt/heat, momentum '
+        'magnitude and direction incl. vertical, depth, arc length incl. ds=0, particle masses incl. zero, heats, ages, '
+        'positions inside and outside the half-width, dissolved pool, tracers), each with random in/out-of-plume flags given '
+        'both through the integrate flag and through NaN-marked positions; floors on every regime are obligations; a state '
+        'is non-trivial when its (scenario, row, perturbation) key is new and md != 0')
+LEVEL_NOTE = ('theorems over the reals about my transcriptions of lmp.derivs and of its closures (Model/Lmp.lean); tied to /repo on '
+              'every generated state by slot-by-slot comparison and by an independent oracle for the closure values; the '
+              'profile, seawater and dbm libraries and floating point are trusted here')
 
 
 def audit_files():
@@ -72,7 +75,7 @@ def _scenario(ctx, i):
     if sol and r.random() < 0.5:
         scn['particles'].append(scn['particles'].pop(r.choice(sol)))
     # short trajectories: a handful of stored rows is enough
-    scn['release']['sd_max'] = r.uniform(3., 40.)
+    scn['release']['sd_max'] = r.choice([r.uniform(3., 40.), r.uniform(3., 40.), r.uniform(40., 400.)])
     scn['release']['dt_max'] = 10 ** r.uniform(0.5, 2.)
     return scn
 
@@ -251,6 +254,17 @@ def budgets(qp, env, ps, lay):
     return out
 
 
+def _oracle_env(env, ind):
+    """the closure record with every ambient / element value replaced by the harness-evaluated one: the budgets are
+    judged against the ambient AT THE ELEMENT, not against whatever the code looked up"""
+    e = dict(env)
+    s = list(env['s'])
+    s[1], s[2], s[3], s[4], s[5], s[14] = ind['Sa'], ind['Ta'], ind['ua'], ind['va'], ind['wa'], ind['rho_a']
+    e['s'] = s
+    e['ca_chems'], e['ca_tracers'], e['c_chems'] = ind['ca_chems'], ind['ca_tracers'], ind['c_chems']
+    return e
+
+
 def outside_nonzero(qp, ps, lay):
     bad = []
     for i, p in enumerate(ps):
@@ -298,11 +312,192 @@ def _slot_scales(env, ps, lay, qp):
 
 # ---------------------------------------------------------------------------------------------
 
-def _raised_in_derivs(exc):
-    """True when the innermost frame of the traceback is the body of lmp.derivs itself (not a closure)"""
+
+# ---------------------------------------------------------------------------------------------
+# closures against the independent oracle
+# ---------------------------------------------------------------------------------------------
+
+def _cl(a, b, scale=0.):
+    return close(float(a), float(b), TOL['gen_vs_source'], abs_floor=TOL['gen_vs_source'] * abs(scale) + TOL['abs_floor'])
+
+
+def closure_checks_python(ctx, case, res):
+    """the ambient the budgets entrain must be the ambient AT THE ELEMENT's depth; element salinity / temperature /
+    density / concentrations must be those of the packed state; Cartesian particle positions must be the rotated
+    local ones; a particle outside the plume exerts no buoyant force"""
+    real, ind = res['real'], res['ind']
+    bad = []
+    for n in ('Pa', 'Ta', 'Sa', 'ua', 'va', 'wa', 'rho_a', 'rho', 'S', 'T'):
+        if not _cl(real[n], ind[n]):
+            bad.append((n, real[n], float(ind[n])))
+    for n in ('ca_chems', 'ca_tracers', 'c_chems'):
+        a, b = np.asarray(real[n], dtype=float), np.asarray(ind[n], dtype=float)
+        if a.shape != b.shape or not all(_cl(x, y) for x, y in zip(a, b)):
+            bad.append((n, [float(x) for x in a], [float(x) for x in b]))
+    if bad:
+        ctx.violation('closure-ambient', 'LagElement.update hands lmp.derivs ambient / element values that are not those of the profile at the element depth and of the packed state: '
+                      + ', '.join(b[0] for b in bad), dict(case, differing=[(b[0], b[1], b[2]) for b in bad], depth=float(res['q'][9])))
+    if ind['x_p'] is not None:
+        for i, p in enumerate(res['ps']):
+            if p['integrate'] and np.all(np.isfinite(ind['x_p'][i])):
+                sc = float(np.sum(np.abs(res['q'][7:10]))) + float(np.sum(np.abs(ind['x_p'][i] - res['q'][7:10])))
+                if not all(_cl(x, y, 100. * sc) for x, y in zip(real['x_p'][i], ind['x_p'][i])):
+                    ctx.violation('closure-particle-position', 'Particle.track does not place the particle at centreline + rotated local coordinates',
+                                  dict(case, particle=i, code=[float(x) for x in real['x_p'][i]], oracle=[float(x) for x in ind['x_p'][i]]))
+    for i, p in enumerate(res['ps']):
+        if not p['integrate'] and real['fb'][i] != 0.:
+            ctx.violation('outside-particle-contributes', 'a particle outside the plume contributes to the buoyant force Fb of the element',
+                          dict(case, particle=i, fb=float(real['fb'][i]), p_fac=real['p_fac'][i]))
+    return not bad
+
+
+def closure_checks_lean(ctx, case, res, o):
+    """compare the Lean transcription (fed with oracle values) with what the real closures returned"""
+    real, env, ps = res['real'], res['env'], res['ps']
+    if not (isinstance(o, list) and len(o) == 7):
+        return 'driver answered %r' % (o,)
+    elem, mds, dtp, up, pf, fb, Fb = o
+    msgs = []
+    fin = np.all(np.isfinite(res['q'][:11])) and np.all(np.isfinite(res['q_prev'][:11]))
+    for n, mv in zip(ELEM_NAMES, elem):
+        if not _cl(mv, real[n]):
+            msgs.append(('element', n, float(mv), real[n]))
+    md_s, md_f, md, fe = mds
+    sc = abs(md_s) + abs(md_f)
+    if fin and math.isfinite(sc):
+        if not _cl(md, env['s'][0], 1e3 * sc):
+            msgs.append(('md', 'entrainment', float(md), env['s'][0]))
+        if not _cl(fe, env['s'][20], 0.):
+            # fe = md / (...): inherits the md tolerance
+            if not close(float(fe), float(env['s'][20]), 1e3 * TOL['gen_vs_source'], abs_floor=1e3 * TOL['gen_vs_source'] * abs(fe)):
+                msgs.append(('fe', 'entrainment frequency', float(fe), env['s'][20]))
+    for i, p in enumerate(ps):
+        xs = list(real['x_p0'][i]) + list(real['x_p'][i])
+        if not np.all(np.isfinite(xs)):
+            continue
+        if not close(float(dtp[i]), float(p['s'][6]), 1e3 * TOL['gen_vs_source'], abs_floor=TOL['abs_floor']):
+            msgs.append(('dtp', 'particle %d' % i, float(dtp[i]), p['s'][6]))
+        for j, k in ((1, 7), (2, 8)):
+            if not _cl(up[3 * i + j], p['s'][k]):
+                msgs.append(('up', 'particle %d component %d' % (i, j), float(up[3 * i + j]), p['s'][k]))
+        if not _cl(pf[i], real['p_fac'][i]):
+            msgs.append(('p_fac', 'particle %d' % i, float(pf[i]), real['p_fac'][i]))
+        if not _cl(fb[i], real['fb'][i]):
+            msgs.append(('fb', 'particle %d' % i, float(fb[i]), float(real['fb'][i])))
+    if not _cl(Fb, real['Fb'], float(np.sum(np.abs(real['fb'])))):
+        msgs.append(('Fb', 'buoyant force', float(Fb), real['Fb']))
+    for kind in sorted(set(m[0] for m in msgs)):
+        ms = [m for m in msgs if m[0] == kind]
+        ctx.violation('closure-' + kind, 'closure value returned by the real code differs from its transcription evaluated on independently obtained inputs (%s)'
+                      % {'element': 'LagElement.update derived quantities', 'md': 'lmp.entrainment', 'fe': 'lmp.track_particles fe',
+                         'dtp': 'lmp.track_particles dtp_dt', 'up': 'lmp.track_particles up', 'p_fac': 'Particle.track p_fac',
+                         'fb': 'LagElement.update fb', 'Fb': 'LagElement.update Fb'}[kind],
+                      dict(case, what=[(m[1], 'model', m[2], 'code', m[3]) for m in ms]))
+    return msgs
+
+
+# ---------------------------------------------------------------------------------------------
+# property predicates that are not budgets
+# ---------------------------------------------------------------------------------------------
+
+def particle_heat_vs_mass(res):
+    """each particle's heat slot = convective heat transfer + (its OWN total mass-slot derivative) * cp * T"""
+    env, ps, lay, qp = res['env'], res['ps'], res['lay'], res['qp']
+    out = []
+    for i, p in enumerate(ps):
+        if not p['integrate']:
+            continue
+        sl = lay['particles'][i]
+        A, nbe, rho_p, cp, beta_T, T, dtp = p['s'][0:7]
+        conv = -A * nbe * rho_p * cp * beta_T * (T - env['s'][19]) * dtp
+        dm = float(np.sum(qp[sl['m'][0]:sl['m'][1]]))
+        want = conv + dm * cp * T
+        scale = abs(conv) + float(np.sum(np.abs(qp[sl['m'][0]:sl['m'][1]]))) * abs(cp * T) + abs(qp[sl['H']])
+        out.append((i, float(qp[sl['H']]), float(want), float(scale), float(dm * cp * T)))
+    return out
+
+
+def _sub_state(q, lay, order):
+    parts = [np.asarray(q[:11], dtype=float)]
+    for i in order:
+        sl = lay['particles'][i]
+        parts.append(np.asarray(q[sl['m'][0]:sl['X'][1]], dtype=float))
+    parts.append(np.asarray(q[lay['chems'][0]:], dtype=float))
+    return np.concatenate(parts)
+
+
+def order_checks(ctx, tam, bpm, prf, parts, case, res, t_prev, t):
+    """the right-hand side must not depend on the ORDER of the particle list, and a particle outside the plume must
+    be removable without changing any other slot (real re-evaluations with a permuted / shortened list)"""
+    ps, lay, env = res['ps'], res['lay'], res['env']
+    n = len(ps)
+    if n < 2 or not np.all(np.isfinite(res['qp'])):
+        return
+    nch = env['nchems']
+    alts = []
+    if nch > 0:
+        cand = [(p['k_bio'] if p['issoluble'] else np.zeros(nch)) * env['cpe'] for p in ps]
+        sc = _slot_scales(env, ps, lay, res['qp'])[lay['chems'][0]:lay['chems'][1]]
+        for j in range(n - 1):
+            if np.any(np.abs(cand[j] - cand[-1]) > TOL['identity'] * sc + TOL['abs_floor']) and np.all(np.isfinite(cand[j])):
+                alts.append(('reorder', [i for i in range(n) if i != j] + [j]))
+                break
+    outs = [i for i, p in enumerate(ps) if not p['integrate']]
+    if outs:
+        alts.append(('remove', [i for i in range(n) if i != outs[-1]]))
+    for kind, order in alts:
+        ctx.count('alt-evaluation:' + kind)
+        try:
+            with np.errstate(all='ignore'):
+                r2 = eval_state(tam, bpm, prf, [parts[i] for i in order], _sub_state(res['q_prev'], lay, order), t_prev,
+                                _sub_state(res['q'], lay, order), t, [case['flags'][i] for i in order], case['mode'])
+        except Exception as e:
+            ctx.count('alt-evaluation-rejected:' + type(e).__name__)
+            continue
+        qp1, qp2, lay2 = res['qp'], r2['qp'], r2['lay']
+        sc1 = _slot_scales(env, ps, lay, qp1)
+        sc1[5] += float(np.sum(np.abs(res['real']['fb']))) * abs(env['s'][7] / (env['s'][8] * env['s'][9]))
+        pairs = [(j, j) for j in range(11)]
+        for pos, i in enumerate(order):
+            a1, a2 = lay['particles'][i]['m'][0], lay2['particles'][pos]['m'][0]
+            pairs += [(a1 + d, a2 + d) for d in range(ps[i]['nc'] + 5)]
+        pairs += [(lay['chems'][0] + d, lay2['chems'][0] + d) for d in range(len(qp1) - lay['chems'][0])]
+        diff = [(j1, float(qp1[j1]), float(qp2[j2])) for j1, j2 in pairs
+                if not close(float(qp1[j1]), float(qp2[j2]), TOL['identity'], abs_floor=TOL['identity'] * sc1[j1] + TOL['abs_floor'])]
+        if not diff:
+            continue
+        a, e = lay['chems']
+        only_dissolved = all(a <= d[0] < e for d in diff)
+        k1, k2 = env['k_bio'], r2['env']['k_bio']
+        explained = only_dissolved and all(
+            close(d[2] - d[1], -(k2[d[0] - a] - k1[d[0] - a]) * env['cpe'][d[0] - a], 1e-6, abs_floor=TOL['identity'] * sc1[d[0]])
+            for d in diff)
+        info = dict(case, alternative=kind, order=order, differing_slots=diff[:8], element_k_bio=[float(x) for x in k1],
+                    element_k_bio_alternative=[float(x) for x in k2], kinds=[('soluble' if p['issoluble'] else 'inert') + ('-in' if p['integrate'] else '-out') for p in ps])
+        if explained:
+            ctx.violation('element-kbio-from-last-particle',
+                          'the biodegradation sink k_bio_e*cpe of the dissolved pool changes when the particle list is %s: LagElement.update takes k_bio of the LAST particle of the list (no integrate guard)'
+                          % ('reordered' if kind == 'reorder' else 'shortened by a particle that is OUTSIDE the plume'), info)
+        elif kind == 'remove':
+            ctx.violation('outside-particle-contributes', 'removing a particle that is outside the plume changes other slots of the right-hand side', info)
+        else:
+            ctx.violation('particle-order-dependence', 'the right-hand side depends on the order of the particle list', info)
+
+
+UNDER_TEST = {('lmp.py', 'derivs'), ('lmp.py', 'entrainment'), ('lmp.py', 'track_particles'), ('lmp.py', 'local_coords'),
+              ('bent_plume_model.py', 'update'), ('bent_plume_model.py', 'track'), ('dispersed_phases.py', 'shear_entrainment')}
+
+
+def _raised_under_test(exc):
+    """name of the anchored function whose own body raised (innermost frame), else None: an exception raised inside a
+    library the anchored code calls (dbm equations of state, fsolve, the ODE solver, the profile) is not C03's"""
     import traceback
+    import os
     tb = traceback.extract_tb(exc.__traceback__)
-    return bool(tb) and tb[-1].name == 'derivs' and tb[-1].filename.endswith('lmp.py')
+    if not tb:
+        return None
+    key = (os.path.basename(tb[-1].filename), tb[-1].name)
+    return '%s:%s' % key if key in UNDER_TEST else None
 
 
 def _tamoc():
@@ -365,7 +560,81 @@ def eval_state(tam, bpm, prf, parts, q_prev, t_prev, q, t, flags, mode):
     unpack_ok = unpack_ok and np.array_equal(np.asarray(q1l.cpe), q[a:e])
     a, e = lay['tracers']
     unpack_ok = unpack_ok and (e == a or np.array_equal(np.asarray(q1l.cte), q[a:e]))
-    return {'q': q, 'qp': qp, 'env': env, 'ps': ps, 'lay': lay, 'unpack_ok': bool(unpack_ok)}
+    real = _real_snapshot(q0l, q1l, parts)
+    ind = _independent(tam, prf, bpm, qp0, q, parts, lay)
+    return {'q': q, 'q_prev': qp0, 'qp': qp, 'env': env, 'ps': ps, 'lay': lay, 'unpack_ok': bool(unpack_ok),
+            'real': real, 'ind': ind, 'p': bpm.p}
+
+
+ELEM_NAMES = ['S', 'T', 'u', 'v', 'w', 'hvel', 'V', 'h', 'b', 'sin_p', 'cos_p', 'sin_t', 'cos_t', 'phi', 'theta']
+
+
+def _real_snapshot(q0l, q1l, parts):
+    """what the REAL LagElement / Particle objects hold after the real call (to be compared with the oracle)"""
+    d = {n: float(getattr(q1l, n)) for n in ELEM_NAMES}
+    for n in ('Pa', 'Ta', 'Sa', 'ua', 'va', 'wa', 'rho_a', 'rho', 'Fb'):
+        d[n] = float(getattr(q1l, n))
+    d['ca_chems'] = np.asarray(q1l.ca_chems, dtype=float).copy()
+    d['ca_tracers'] = np.asarray(q1l.ca_tracers, dtype=float).copy()
+    d['c_chems'] = np.asarray(q1l.c_chems, dtype=float).copy()
+    d['x_p'] = np.asarray(q1l.x_p, dtype=float).copy()
+    d['x_p0'] = np.asarray(q0l.x_p, dtype=float).copy()
+    d['fb'] = np.asarray(q1l.fb, dtype=float).copy()
+    d['p_fac'] = [float(getattr(pt, 'p_fac', float('nan'))) for pt in parts]
+    d['us'] = [float(pt.us) for pt in parts]
+    d['rho_p'] = [float(pt.rho_p) for pt in parts]
+    d['nbe'] = [float(pt.nbe) for pt in parts]
+    return d
+
+
+def _ambient_at(tam, prf, bpm, z):
+    """the ambient at depth z, looked up by the HARNESS (profile interpolation and seawater.density are library
+    functions here: C07 / C13)"""
+    Pa, Ta, Sa, ua, va, wa = [float(x) for x in prf.get_values(float(z), ['pressure', 'temperature', 'salinity', 'ua', 'va', 'wa'])]
+    return {'Pa': Pa, 'Ta': Ta, 'Sa': Sa, 'ua': ua, 'va': va, 'wa': wa,
+            'ca_chems': np.asarray(prf.get_values(float(z), list(bpm.chem_names)), dtype=float),
+            'ca_tracers': np.asarray(prf.get_values(float(z), list(bpm.tracers)), dtype=float),
+            'rho_a': float(tam['seawater'].density(Ta, Sa, Pa))}
+
+
+def _independent(tam, prf, bpm, q_prev, q, parts, lay):
+    """oracle for the closures, evaluated by the harness from the packed state and the profile only"""
+    sw = tam['seawater']
+    cpw = float(sw.cp())
+    d = _ambient_at(tam, prf, bpm, q[9])
+    d['S'], d['T'] = q[1] / q[0], q[2] / (q[0] * cpw)
+    d['rho'] = float(sw.density(float(d['T']), float(d['S']), d['Pa']))
+    a0 = _ambient_at(tam, prf, bpm, q_prev[9])
+    d['rho_prev'] = float(sw.density(float(q_prev[2] / (q_prev[0] * cpw)), float(q_prev[1] / q_prev[0]), a0['Pa']))
+    a, e = lay['chems']
+    d['c_chems'] = np.asarray(q[a:e], dtype=float) / (q[0] / d['rho'])
+    # Cartesian particle positions: rotation (l,n,m) -> (x,y,z) is the transpose of lmp.local_coords
+    u, v, w = q[3] / q[0], q[4] / q[0], q[5] / q[0]
+    hvel = math.sqrt(u * u + v * v)
+    V = math.sqrt(hvel * hvel + w * w)
+    if V > 0:
+        sin_p, cos_p = w / V, hvel / V
+        sin_t, cos_t = (0., 1.) if hvel == 0. else (v / hvel, u / hvel)
+        A = np.array([[cos_p * cos_t, cos_p * sin_t, sin_p], [cos_t * sin_p, sin_t * sin_p, -cos_p], [sin_t, -cos_t, 0.]])
+        d['x_p'] = [A.T.dot(np.asarray(q[sl['X'][0]:sl['X'][1]], dtype=float)) + np.asarray(q[7:10], dtype=float)
+                    for sl in lay['particles']]
+    else:
+        d['x_p'] = None
+    return d
+
+
+def _closure_line(res, p):
+    """request for the Lean transcription of LagElement.update (derived part), Particle.track, the buoyant force,
+    lmp.entrainment and lmp.track_particles, fed with harness-evaluated ambient values and the packed states"""
+    ind, real, lay, q = res['ind'], res['real'], res['lay'], res['q']
+    args = [q[:11], res['q_prev'][:11], [ind['ua'], ind['va'], ind['wa'], ind['rho_a'], ind['rho'], ind['rho_prev']],
+            [res['env']['s'][6], math.pi, float(p.g), float(p.alpha_j), float(p.alpha_Fr)]]
+    for i, sl in enumerate(lay['particles']):
+        X = q[sl['X'][0]:sl['X'][1]]
+        args += [int(res['ps'][i]['integrate']),
+                 [real['us'][i], real['nbe'][i], real['rho_p'][i], X[0], X[1], X[2]] + list(real['x_p0'][i]) + list(real['x_p'][i]),
+                 q[sl['m'][0]:sl['m'][1]]]
+    return req('Lmp.closures', *args)
 
 
 def _case(scn, k, q_prev, t_prev, q, t, flags, mode, tag):
@@ -382,14 +651,18 @@ def run(ctx, lean_ok):
     pert_per = ctx.n(4, 6)
     states = []        # (case, result)
     nfail_build = 0
+    nstate_ok = nstate_rej = 0
     for i in range(nscn):
         scn = _scenario(ctx, i)
         try:
             bpm, prf, parts = scen_bpm.simulate(scn)
-        except Exception as e:                      # a scenario the simulator rejects is C20's business, not C03's
-            if _raised_in_derivs(e):                # ... unless it is the assembly itself that raises
-                ctx.violation('derivs-raises', 'lmp.derivs raises %s during a simulation of a valid scenario: %s' % (type(e).__name__, e),
+        except Exception as e:
+            where = _raised_under_test(e)
+            if where:                               # the anchored code itself raises on a valid scenario
+                ctx.violation('raises:' + where, '%s raises %s during a simulation of a valid scenario: %s' % (where, type(e).__name__, e),
                               {'scenario': scn})
+            # otherwise: raised inside a library (dbm, fsolve of the initial conditions, VODE): whether every valid
+            # input completes is C20; counted, and bounded by the floor obligation below
             ctx.count('scenario-rejected:' + type(e).__name__)
             nfail_build += 1
             continue
@@ -399,7 +672,7 @@ def run(ctx, lean_ok):
         ctx.count('background=%s' % ('yes' if scn['profile']['background'] else 'no'))
         ctx.count('current=%s' % ('yes' if scn['profile']['current'] else 'no'))
         nrow = len(bpm.t)
-        ks = sorted(set([1, nrow - 1] + [r.randint(1, nrow - 1) for _ in range(rows_per)]))[:rows_per + 1]
+        ks = sorted(set([1, nrow - 1] + [r.randint(1, nrow - 1) for _ in range(rows_per - 1)]))
         t_all, q_all = np.array(bpm.t), np.array(bpm.q)
         lay0 = scen_bpm.layout(parts, len(bpm.chem_names), len(bpm.tracers))
         if lay0['len'] != q_all.shape[1]:
@@ -424,10 +697,16 @@ def run(ctx, lean_ok):
                     with np.errstate(all='ignore'):
                         res = eval_state(tam, bpm, prf, parts, q_prev, t_prev, q, t, flags, mode)
                 except Exception as e:
-                    if _raised_in_derivs(e):
-                        ctx.violation('derivs-raises', 'lmp.derivs raises %s on a state: %s' % (type(e).__name__, e), case)
+                    where = _raised_under_test(e)
+                    if where:
+                        ctx.violation('raises:' + where, '%s raises %s on a state: %s' % (where, type(e).__name__, e), case)
+                    # else: a perturbed state outside the domain of the dbm property routines (library): justified skip
                     ctx.count('state-rejected:' + type(e).__name__)
+                    nstate_rej += 1
                     continue
+                nstate_ok += 1
+                with np.errstate(all='ignore'):
+                    order_checks(ctx, tam, bpm, prf, parts, case, res, t_prev, t)
                 states.append((case, res))
                 ctx.count('mode=' + mode)
                 for p in res['ps']:
@@ -445,8 +724,17 @@ def run(ctx, lean_ok):
                     'derivs[0:6]': [float(x) for x in res['qp'][:6]]})
     if nfail_build:
         ctx.notes.append('%d scenarios rejected by the simulator before any state was produced' % nfail_build)
+    ctx.oblige('floor: at least 85 %% of the scenarios simulated (%d of %d)' % (nscn - nfail_build, nscn),
+               nscn - nfail_build >= 0.85 * nscn, 'rejected: %r' % {k: v for k, v in ctx.hist.items() if k.startswith('scenario-rejected')})
+    ctx.oblige('floor: at least 90 %% of the generated states evaluated (%d of %d)' % (nstate_ok, nstate_ok + nstate_rej),
+               nstate_ok >= 0.9 * (nstate_ok + nstate_rej) and nstate_ok >= ctx.n(300, 8000),
+               'rejected: %r' % {k: v for k, v in ctx.hist.items() if k.startswith('state-rejected')})
+    floors = {'soluble-in': 100, 'soluble-out': 30, 'inert-in': 50, 'inert-out': 15, 'element-k_bio-nonzero': 20, 'particles=0': 1,
+              'particles=6': 1, 'mode=flag': 50, 'mode=stored': 50, 'alt-evaluation:remove': 30, 'alt-evaluation:reorder': 5}
+    short = {k: ctx.hist.get(k, 0) for k, v in floors.items() if ctx.hist.get(k, 0) < v}
+    ctx.oblige('floor: every regime of the quantifier reached (%s)' % ', '.join('%s>=%d' % kv for kv in sorted(floors.items())),
+               not short, 'below floor: %r' % short)
     if not states:
-        ctx.oblige('at least one state generated', False, 'no scenario could be simulated')
         return
 
     # ---- property predicates on the REAL vectors ---------------------------------------------
@@ -472,7 +760,17 @@ def run(ctx, lean_ok):
         if not finite_in:
             ctx.count('closure-nonfinite (budgets skipped)')
             continue
-        for key, lhs, rhs, scale in budgets(qp, env, ps, lay):
+        closure_checks_python(ctx, case, res)
+        for i, got, want, scale, carried in particle_heat_vs_mass(res):
+            if math.isfinite(got) and math.isfinite(want) and abs(got - want) > TOL['identity'] * scale + TOL['abs_floor']:
+                nch = env['nchems']
+                narrow = (not ps[i]['issoluble']) and nch != 1 and \
+                    abs((got - want) - (nch - 1) * carried) <= 1e-6 * abs(got - want)
+                ctx.violation('inert-heat-loss-nchems-broadcast' if narrow else 'particle-heat-mass-mismatch',
+                              ('heat removed from an INERT particle with its biodegraded mass is nchems = %d times the heat that mass carries (lmp.derivs l.150: np.sum(dm_pc + dm_pb) broadcasts the one-element dm_pb over np.zeros(nchems))' % nch)
+                              if narrow else 'a particle heat slot is not heat transfer + (its own mass-slot derivatives) * cp * T',
+                              dict(case, particle=i, heat_slot=got, expected=want, nchems=nch, heat_carried_by_lost_mass=carried))
+        for key, lhs, rhs, scale in budgets(qp, _oracle_env(env, res['ind']), ps, lay):
             if not (math.isfinite(lhs) and math.isfinite(rhs)):
                 ctx.violation(key + '-budget', 'budget term is not finite although every closure value is finite',
                               dict(case, budget=key, lhs=float(lhs), rhs=float(rhs)))
@@ -485,11 +783,6 @@ def run(ctx, lean_ok):
                               dict(case, budget=key, lhs=float(lhs), rhs=float(rhs), scale=float(scale),
                                    derivs=[float(x) for x in qp]))
     ctx.notes.append('worst budget residual relative to sum|terms| on the real vectors: %.3g' % worst_id)
-    ctx.notes.append('observation (not judged by C03): LagElement.update leaves on the element the k_bio of the LAST particle of the '
-                     'list; in %d states a soluble particle inside the plume biodegrades while the dissolved pool is given k_bio = 0 '
-                     '(last particle inert / younger than its lag time), in %d states the dissolved pool biodegrades; the budget closes '
-                     'with that value in every state' % (ctx.hist.get('element-k_bio-zero-while-a-particle-biodegrades', 0),
-                                                         ctx.hist.get('element-k_bio-nonzero', 0)))
 
     # ---- correspondence with the Lean model -----------------------------------------------------
     if not lean_ok:
@@ -512,10 +805,20 @@ def run(ctx, lean_ok):
         ht = qp[2] + sum(qp[sl['H']] for sl in lay['particles'])
         ht_scale = abs(qp[2]) + sum(abs(qp[sl['H']]) for sl in lay['particles'])
         tot_want.append((ct, ct_scale, ht, ht_scale, res['env']['nchems']))
-    out_all = run_driver(ctx, 'C03', lines + tot_lines)
+    clo_lines = [_closure_line(res, res['p']) for _case_, res in states]
+    out_all = run_driver(ctx, 'C03', lines + tot_lines + clo_lines)
     if out_all is None:
         return
-    out, out_tot = out_all[:len(lines)], out_all[len(lines):]
+    out, out_tot, out_clo = out_all[:len(lines)], out_all[len(lines):2 * len(lines)], out_all[2 * len(lines):]
+    nbad_c = 0
+    for (case, res), o in zip(states, out_clo):
+        msgs = closure_checks_lean(ctx, case, res, o)
+        if msgs:
+            nbad_c += 1
+            if nbad_c <= 3:
+                ctx.broken.append(('correspondence', 'Model.Lmp closures vs LagElement.update / lmp.entrainment / lmp.track_particles', repr(msgs)[:600]))
+    ctx.oblige('correspondence Model.Lmp.{elemDerived, entrainment, feOf, dtpOf, upOf, pFac, fbOf} on oracle inputs == values the real closures returned, %d states' % len(states),
+               nbad_c == 0, '%d states disagree' % nbad_c)
     nbad_t = 0
     for (ct, cs, ht, hs, nch), o in zip(tot_want, out_tot):
         ok = isinstance(o, list) and len(o) == 2 and close(float(o[1]), float(ht), TOL['gen_vs_source'], abs_floor=TOL['gen_vs_source'] * hs + TOL['abs_floor']) \
@@ -573,7 +876,18 @@ def replay(ctx, path):
     for i, blk in outside_nonzero(res['qp'], res['ps'], res['lay']):
         print('outside particle %d has non-zero slots %r' % (i, blk))
         rc = 1
-    for key, lhs, rhs, scale in budgets(res['qp'], res['env'], res['ps'], res['lay']):
+    case0 = {k: v for k, v in case.items() if k != 'scenario'}
+    closure_checks_python(ctx, case0, res)
+    with np.errstate(all='ignore'):
+        order_checks(ctx, tam, bpm, prf, parts, dict(case0, flags=case['flags'], mode=case['mode']), res, case['t_prev'], case['t'])
+    for i, got, want, scale, carried in particle_heat_vs_mass(res):
+        if abs(got - want) > TOL['identity'] * scale + TOL['abs_floor']:
+            print('particle %d heat slot %.17g, expected from its own mass slots %.17g' % (i, got, want))
+            rc = 1
+    for v in ctx.violations:
+        print('%s: %s' % (v['key'], v['what']))
+        rc = 1
+    for key, lhs, rhs, scale in budgets(res['qp'], _oracle_env(res['env'], res['ind']), res['ps'], res['lay']):
         ok = abs(lhs - rhs) <= TOL['identity'] * scale + TOL['abs_floor']
         print('%-12s lhs=%.17g rhs=%.17g scale=%.3g %s' % (key, lhs, rhs, scale, 'ok' if ok else 'FAILS'))
         rc = rc or (0 if ok else 1)
